@@ -113,13 +113,34 @@ fn check_c20(check: &mut Check) -> (String, Vec<String>, String) {
     ("json/long_string", 50),
     ("json/nonfinite_float", 100),
     ("json/flatten/reserved_key", 100),
+    ("json/flatten/optional_key_field/attribute_absent", 500),
+    ("json/flatten/optional_key_field/attribute_present", 200),
+    ("json/nested/optional_key_field/attribute_absent", 200),
+    ("json/flatten/optional_key_field/attribute_absent/message", 50),
+    ("json/flatten/optional_key_field/attribute_absent/span_id", 50),
+    ("json/flatten/optional_key_field/attribute_absent/parent_id", 50),
+    ("json/flatten/optional_key_field/attribute_absent/thread_id", 50),
+    ("json/flatten/optional_key_field/attribute_absent/thread_name", 50),
     ("pattern/renders_message", 1000),
     ("pattern/special_message", 300),
+    ("pattern/fit/multibyte/width<=chars", 200),
+    ("pattern/fit/multibyte/chars<width<bytes", 500),
+    ("pattern/fit/multibyte/chars<width==bytes", 100),
+    ("pattern/fit/multibyte/width>bytes", 200),
+    ("pattern/fit/multibyte/chars<width<bytes/%m", 50),
+    ("pattern/fit/multibyte/chars<width<bytes/%t", 50),
+    ("pattern/fit/multibyte/chars<width<bytes/%T", 50),
+    ("pattern/fit/multibyte/chars<width<bytes/%X", 50),
     ("roller/size_roll", 300),
     ("roller/time_roll", 300),
     ("roller/compressed_file_seen", 100),
     ("roller/retention_deleted", 100),
     ("roller/over_existing_rolled_files", 300),
+    ("roller/existing_rolled_files_dated_before_and_after_now", 200),
+    ("roller/roll_over_2plus_rolled_files", 300),
+    ("roller/roll_with_clock_between_oldest_and_newest_rolled_file", 100),
+    ("roller/roll_with_clock_between_oldest_and_newest_rolled_file/retention", 30),
+    ("roller/roll_with_clock_behind_every_rolled_file", 20),
     ("roller/nontrivial", 200),
   ] {
     check.require_class(class, min);
